@@ -12,3 +12,11 @@ Print Assumptions C17_every_call.
 Theorem C17_holds : forall c : scase, wf_case c -> chk_C17_kv (c, srun c) = true.
 Proof. exact (chk_kv_sound chk_row_C17 C17_row_sound). Qed.
 Print Assumptions C17_holds.
+
+(* the removal of a document by a firing of the expiry timer adds exactly one to its revision number, and the event and the virtual xattrs say so: the step checker chk_step_expiry applies the row rule of Delete to every document a firing removed, with
+   the events the firing posted for it; it accepts every history of the model (KvExpiry.v: each due document is
+   removed exactly once) and is evaluated on the implementation's traces *)
+From Rosmar Require Import KvExpiry.
+Theorem C17_expiry_is_a_removal : forall c : scase, wf_case c -> chk_expiry_kv chk_row_C17 (c, srun c) = true.
+Proof. exact (expiry_sound chk_row_C17 C17_row_sound). Qed.
+Print Assumptions C17_expiry_is_a_removal.
